@@ -27,6 +27,7 @@ type Case struct {
 	S      string   `json:"s,omitempty"`      // requirement string or name
 	Marker string   `json:"marker,omitempty"` // marker text (kind marker)
 	Extras []string `json:"extras,omitempty"` // requested extras (kind marker)
+	Before []string `json:"before,omitempty"` // markers resolved earlier on the same resolver (kind marker)
 	Note   string   `json:"note,omitempty"`
 	// Observations recorded at violation time (informational).
 	Lib string `json:"lib,omitempty"`
@@ -169,6 +170,9 @@ func runCases(r *ev.Run, env map[string]string, cs []Case, origin string, report
 		case "name":
 			names = append(names, c.S)
 		case "marker":
+			for _, b := range c.Before {
+				ms = append(ms, markerCase{Marker: b, Extras: c.Extras})
+			}
 			ms = append(ms, markerCase{Marker: c.Marker, Extras: c.Extras})
 		default:
 			r.Inconclusive(fmt.Sprintf("%s: unknown case kind %q", origin, c.Kind))
@@ -181,6 +185,6 @@ func runCases(r *ev.Run, env map[string]string, cs []Case, origin string, report
 		checkNames(r, names, origin, report)
 	}
 	if len(ms) > 0 {
-		checkMarkers(r, env, ms, origin, report)
+		checkMarkers(r, env, ms, origin, report, nil)
 	}
 }
